@@ -352,6 +352,8 @@ func opTab(a map[string]interface{}) (string, string, interface{}) {
 			defer os.RemoveAll(dir)
 			a = copyArgs(a)
 			a["filename"] = filepath.Join(dir, "export.csv")
+			// the export overwrites: whatever an earlier, longer export left in the file must be gone
+			os.WriteFile(aStr(a, "filename"), []byte(strings.Repeat("stale line of an earlier export|x|y|\n", 400)), 0644)
 			wroteFile = true
 		}
 	}
